@@ -195,20 +195,16 @@ impl Node {
 
         // Step 2. Let selectedcontent be the first selectedcontent element descendant of select in tree order
         // if any such element exists; otherwise return null.
-        // FIXME: This does not visit the nodes in tree order
-        let mut remaining = VecDeque::default();
-        remaining.extend(self.children.borrow().iter().cloned());
+        let mut remaining: Vec<Rc<Self>> = self.children.borrow().iter().rev().cloned().collect();
         let mut selectedcontent = None;
-        while let Some(node) = remaining.pop_front() {
-            remaining.extend(node.children.borrow().iter().cloned());
-
-            let NodeData::Element { name, .. } = &self.data else {
-                continue;
-            };
-            if name.local_name() == &local_name!("selectedcontent") {
-                selectedcontent = Some(node);
-                break;
+        while let Some(node) = remaining.pop() {
+            if let NodeData::Element { name, .. } = &node.data {
+                if name.local_name() == &local_name!("selectedcontent") {
+                    selectedcontent = Some(node);
+                    break;
+                }
             }
+            remaining.extend(node.children.borrow().iter().rev().cloned());
         }
         let selectedcontent = selectedcontent?;
 
@@ -229,13 +225,22 @@ impl Node {
         for child in self.children.borrow().iter() {
             // Step 2.1 Let childClone be the result of running clone given child with subtree set to true.
             let child_clone = child.clone_with_subtree();
+            child_clone
+                .parent
+                .set(Some(Rc::downgrade(&selectedcontent)));
 
             // Step 2.2 Append childClone to documentFragment.
             document_fragment.push(child_clone);
         }
 
         // Step 3. Replace all with documentFragment within selectedcontent.
-        *selectedcontent.children.borrow_mut() = document_fragment;
+        let removed = mem::replace(
+            &mut *selectedcontent.children.borrow_mut(),
+            document_fragment,
+        );
+        for child in removed {
+            child.parent.set(None);
+        }
     }
 
     /// Clones the node and all of its descendants, returning a handle to the new subtree.
@@ -243,17 +248,17 @@ impl Node {
     /// This function will run into infinite recursion when the DOM tree contains cycles and it makes
     /// no attempts to guard against that.
     fn clone_with_subtree(&self) -> Rc<Self> {
-        let children = self
-            .children
-            .borrow()
-            .iter()
-            .map(|child| child.clone_with_subtree())
-            .collect();
-        Rc::new(Self {
-            parent: Cell::new(self.parent()),
+        let clone = Rc::new(Self {
+            parent: Cell::new(None),
             data: self.data.clone(),
-            children: RefCell::new(children),
-        })
+            children: RefCell::new(Vec::new()),
+        });
+        for child in self.children.borrow().iter() {
+            let child_clone = child.clone_with_subtree();
+            child_clone.parent.set(Some(Rc::downgrade(&clone)));
+            clone.children.borrow_mut().push(child_clone);
+        }
+        clone
     }
 }
 
